@@ -274,6 +274,9 @@ class VProbeEvent(EventABC):
     def setup(self, settings, *a, **k):
         self.hookspecs = settings["hooks"]
         self.rewrite = settings.get("rewrite")
+        # optional: change a parameter of the fundamental process in the before-step hook of market 0 at a given time
+        # ({"at": t, "market": name, "drift": x, "now": bool}); "now": False uses the method's default time (0)
+        self.fundamental_change = settings.get("fundamentalChange")
         self.same_hook_twice = settings.get("sameHookTwice", False)
 
     def hook_registration(self):
@@ -336,6 +339,14 @@ class VProbeEvent(EventABC):
         if tr.options.get("fundamentals"):
             kw["fund"] = [m.get_fundamental_price() for m in simulator.markets]
         self._r("market_before", market=market.market_id, **kw)
+        fc = getattr(self, "fundamental_change", None)
+        if fc and market is simulator.markets[0] and market.get_time() == fc["at"]:
+            mid = simulator.name2market[fc["market"]].market_id
+            if fc.get("now"):
+                simulator.fundamentals.change_drift(market_id=mid, drift=fc["drift"], time=market.get_time())
+            else:
+                simulator.fundamentals.change_drift(market_id=mid, drift=fc["drift"])
+            tr.count("fundamental_changes")
         if tr.options.get("probe_series"):
             probe_series(tr, market)
 
